@@ -4,6 +4,7 @@ From NW Require Import Base.Bytes Model.SchemaTypes Gen.Schema Model.Codec Model
 From NW Require Import Proofs.ServerLib Proofs.ServerRoute Proofs.ServerHandlers Proofs.ServerSteps Proofs.ServerPhases.
 From NW Require Import Proofs.ServerInvBase Proofs.ServerInv Proofs.ServerUniq Proofs.ServerInvCor.
 From NW Require Import Proofs.ServerDelivery Proofs.ServerEvents Proofs.ServerIdentity.
+From NW Require Import Gen.Errors Model.Pool Model.Framing Model.Link Proofs.LinkProofs.
 
 Theorem C17_direct_outputs_exact :
   forall (cfg : scfg) (s : state) (targets : list str) (payload : list N),
@@ -94,3 +95,14 @@ Theorem C17_client_direct_ack_iff_valid :
     (snd (h_mod_direct cfg h me m payload c) = None <->
      head_outcome (script c) <> MErr /\ head_outcome (script c) <> MInvalid).
 Proof. exact C17_client_direct_ack. Qed.
+
+Theorem C17_m2s_direct_exact :
+  forall (cfg : lcfg) (hb : N) (m : msg) (b : list N) (c : lctx),
+    lph c = LAuth hb ->
+    lclosed c = false ->
+    l_max_inflight cfg <> 0 ->
+    is_kind m "M2S_MOD_DIRECT" = true ->
+    exists tail : list lout,
+      louts (m2s_frame cfg m (Some b) c) = louts c ++ LRoute (get_vec m "targets") b :: tail /\
+      quiet tail.
+Proof. exact m2s_direct_exact. Qed.
